@@ -3,13 +3,13 @@
 Two parts:
   A. polynomial identities: T-sym traces of the real code (build) + theories/Props/C12.v + Sym==Num + oracle.
   B. exp / log round trips: hand model theories/Model/C12_ExpLog.v of Quaternion.exp / Quaternion.log and of
-     what they call (vectors.norm, vectors.unitvec, quaternions.qnorm, quaternions.unit, the (s=, v=)
+     what they call (vectors.norm, quaternions.qnorm, quaternions.unit, the (s=, v=)
      constructors), tied on every run by
        T-const : fail-closed AST pass (tconst) -> coq/gen/Consts_C12.v: the thresholds of the three branch sites as
                  terms over the ops record + the branch skeleton / call set of every modelled function,
        T-num   : Gen.model numeric correspondence (extracted model on OCaml floats vs the real methods) on
                  directed inputs (scalar part 0 / 1e-18..1e-1 / O(1), vector norm 1e-12..pi..3pi, |q| = 1 +- d,
-                 vector parts below the unitvec threshold), a factor 2 away from each threshold,
+                 vector parts down to 1e-30, real and zero quaternions), a factor 2 away from each threshold,
      theorems theories/Props/C12_explog.v over R, and the oracle on the same directed domain (1e-6 relative).
 """
 import ast
@@ -143,42 +143,42 @@ def qexp_ref(q):
 FILES = {
     'spatialmath/quaternion.py': ['Quaternion.__init__', 'Quaternion.norm', 'Quaternion.log', 'Quaternion.exp',
                                   'UnitQuaternion.__init__'],
-    'spatialmath/base/vectors.py': ['norm', 'unitvec'],
+    'spatialmath/base/vectors.py': ['norm'],
     'spatialmath/base/quaternions.py': ['qnorm', 'unit'],
 }
 # if / else / return <callee> / raise structure; assigned locals are renamed to `_`, a threshold operand of an
 # ordering comparison (a number, or a number times _eps) to `K` -- the value of K goes to Consts_C12.v
 EXPECTED_SKELETON = {
-    'Quaternion.__init__': ['if v is None', 'if super().arghandler(s, check=False)', 'return', 'else', 'if base.isvector(s, 4)',
-                            'endif', 'endif', 'else', 'if base.isscalar(s) and base.isvector(v, 3)', 'else', 'raise ValueError',
-                            'endif', 'endif'],
+    'Quaternion.__init__': ['if v is None', 'if super().arghandler(s, check=True)', 'return', 'else', 'if base.isvector(s, 4)',
+                            'else', 'raise ValueError', 'endif', 'endif', 'else', 'if base.isscalar(s) and base.isvector(v, 3)',
+                            'else', 'raise ValueError', 'endif', 'endif'],
     'Quaternion.norm': ['if len(self) == 1', 'return base.qnorm', 'else', 'return np.array', 'endif'],
-    'Quaternion.log': ['return Quaternion'],
-    'Quaternion.exp': ['if abs(self.s) < K', 'return UnitQuaternion', 'else', 'return Quaternion', 'endif'],
+    'Quaternion.log': ['if _ == 0', 'if self.s < 0', 'raise ValueError', 'endif', 'else', 'endif', 'return Quaternion'],
+    'Quaternion.exp': ['if _ == 0', 'else', 'endif', 'if abs(self.s) < K', 'return UnitQuaternion', 'else', 'return Quaternion', 'endif'],
     'UnitQuaternion.__init__': ['if v is None', 'if super().arghandler(s, check=check)', 'else',
                                 'if isinstance(s, np.ndarray) and base.isrot(s, check=check)', 'else',
                                 'if isinstance(s, np.ndarray) and base.ishom(s, check=check)', 'else',
-                                'if isinstance(s, np.ndarray) and s.shape[1] == 4', 'if norm', 'else', 'endif', 'else',
-                                'if isinstance(s, SO3)', 'else', 'if isinstance(s[0], SO3)', 'else', 'raise ValueError', 'endif',
-                                'endif', 'endif', 'endif', 'endif', 'endif', 'else', 'if base.isscalar(s) and base.isvector(v, 3)',
-                                'if norm', 'endif', 'else', 'raise ValueError', 'endif', 'endif'],
+                                'if isinstance(s, np.ndarray) and s.shape == (4,)', 'else',
+                                'if isinstance(s, np.ndarray) and s.ndim == 2 and (s.shape[1] == 4)', 'if norm', 'else', 'endif',
+                                'else', 'if isinstance(s, SO3)', 'else', 'if isinstance(s[0], SO3)', 'else', 'raise ValueError',
+                                'endif', 'endif', 'endif', 'endif', 'endif', 'endif', 'endif', 'else',
+                                'if base.isscalar(s) and base.isvector(v, 3)', 'if norm', 'endif', 'else', 'raise ValueError',
+                                'endif', 'endif'],
     'norm': ['For', 'if isinstance(_, sympy.Expr)', 'return sympy.sqrt', 'else', 'return math.sqrt', 'endif'],
-    'unitvec': ['if _ > K', 'return', 'else', 'return None', 'endif'],
     'qnorm': ['return np.linalg.norm'],
     'unit': ['if abs(_) < K', 'raise ValueError', 'endif', 'return'],
 }
 # multiset of callees of the small kernels (invariant under renamed locals / reordered terms)
 EXPECTED_CALLS = {
-    'Quaternion.log': ['Quaternion', 'base.unitvec', 'math.acos', 'math.log', 'self.norm'],
+    'Quaternion.log': ['Quaternion', 'ValueError', 'base.norm', 'math.atan2', 'math.log', 'np.zeros', 'self.norm'],
     'Quaternion.exp': ['Quaternion', 'UnitQuaternion', 'abs', 'base.norm', 'math.cos', 'math.exp', 'math.sin'],
-    'norm': ['isinstance', 'math.sqrt', 'sympy.sqrt'],
-    'unitvec': ['getvector', 'norm'],
+    'norm': ['getvector', 'isinstance', 'math.sqrt', 'sympy.sqrt'],
     'qnorm': ['base.getvector', 'np.linalg.norm'],
     'unit': ['ValueError', 'abs', 'base.getvector', 'np.linalg.norm'],
 }
 # threshold sites: function -> field of the qthr record
-SITES = {'Quaternion.exp': 't_exp', 'unitvec': 't_unitvec', 'unit': 't_unit'}
-NOMINAL = {'t_exp': 100 * EPS, 't_unitvec': 100 * EPS, 't_unit': 10 * EPS}
+SITES = {'Quaternion.exp': 't_exp', 'unit': 't_unit'}
+NOMINAL = {'t_exp': 100 * EPS, 't_unit': 10 * EPS}
 
 
 class TConstError(Exception):
@@ -189,8 +189,12 @@ def _num(e):
     return isinstance(e, ast.Constant) and isinstance(e.value, (int, float)) and not isinstance(e.value, bool)
 
 
+def _thr_num(e):
+    return _num(e) and e.value != 0        # `x < 0` / `n == 0` are sign / zero tests, not thresholds
+
+
 def _is_thr(e):
-    if _num(e):
+    if _thr_num(e):
         return True
     if isinstance(e, ast.BinOp) and isinstance(e.op, ast.Mult):
         return any(isinstance(x, ast.Name) and x.id == '_eps' for x in (e.left, e.right))
@@ -277,7 +281,7 @@ def _threshold(fn, name):
     for n in ast.walk(fn):
         if isinstance(n, ast.Compare) and len(n.ops) == 1 and isinstance(n.ops[0], (ast.Lt, ast.LtE, ast.Gt, ast.GtE)):
             for e in (n.left, n.comparators[0]):
-                if _num(e):
+                if _thr_num(e):
                     found.append((_coq_num(e.value), float(e.value), ast.unparse(e)))
                 elif isinstance(e, ast.BinOp) and isinstance(e.op, ast.Mult):
                     a, b = e.left, e.right
@@ -331,11 +335,10 @@ def tconst(ctx):
 
 def consts_text(K):
     return ("(* GENERATED on every run by props/C12.py from the AST of /repo's working tree -- do not edit.\n"
-            "   thresholds of Quaternion.exp (" + K['t_exp'][2] + "), vectors.unitvec (" + K['t_unitvec'][2] +
-            "), quaternions.unit (" + K['t_unit'][2] + ") *)\n"
+            "   thresholds of Quaternion.exp (" + K['t_exp'][2] + "), quaternions.unit (" + K['t_unit'][2] + ") *)\n"
             "From Coq Require Import ZArith.\nFrom SM Require Import Base.Ops Model.C12_ExpLog.\n"
             "Definition C12_thr {T} (O : ops T) : qthr T :=\n  {| " +
-            ";\n     ".join(f"{f} := {K[f][0]}" for f in ('t_exp', 't_unitvec', 't_unit')) + " |}.\n")
+            ";\n     ".join(f"{f} := {K[f][0]}" for f in ('t_exp', 't_unit')) + " |}.\n")
 
 
 # ------------------------------------------------------------------------------------------------------------
@@ -347,14 +350,13 @@ From SM Require Import Base.Lin Model.C12_ExpLog.
 From SMgen Require Import Consts_C12.
 Definition m_vnorm3 {T} (O : ops T) (v : V3 T) : T := vnorm3 O v.
 Definition m_qnorm4 {T} (O : ops T) (q : V4 T) : T := qnorm4 O q.
-Definition m_unitvec {T} (O : ops T) (v : V3 T) := unitvec3 O (C12_thr O) v.
 Definition m_qunit {T} (O : ops T) (q : V4 T) := qres_opt (qunit O (C12_thr O) q).
 Definition m_qunit_code {T} (O : ops T) (q : V4 T) : T := qres_code O (qunit O (C12_thr O) q).
 Definition m_qexp {T} (O : ops T) (q : V4 T) := qres_opt (qexp_vec O (C12_thr O) q).
 Definition m_qexp_code {T} (O : ops T) (q : V4 T) : T := qres_code O (qexp O (C12_thr O) q).
 Definition m_qexp_unit {T} (O : ops T) (q : V4 T) : bool := qexp_is_unit O (C12_thr O) q.
-Definition m_qlog {T} (O : ops T) (q : V4 T) := qres_opt (qlog O (C12_thr O) q).
-Definition m_qlog_code {T} (O : ops T) (q : V4 T) : T := qres_code O (qlog O (C12_thr O) q).
+Definition m_qlog {T} (O : ops T) (q : V4 T) := qres_opt (qlog O q).
+Definition m_qlog_code {T} (O : ops T) (q : V4 T) : T := qres_code O (qlog O q).
 Definition m_qexp_log {T} (O : ops T) (q : V4 T) := qres_opt (qexp_log O (C12_thr O) q).
 Definition m_qexp_log_code {T} (O : ops T) (q : V4 T) : T := qres_code O (qexp_log O (C12_thr O) q).
 Definition m_qlog_exp {T} (O : ops T) (q : V4 T) := qres_opt (qlog_exp O (C12_thr O) q).
@@ -386,9 +388,9 @@ def away(x, t):
 
 
 class Dom:
-    """directed inputs for exp / log; th = {'t_exp','t_unitvec','t_unit'} -> float values taken from the source"""
+    """directed inputs for exp / log; th = {'t_exp','t_unit'} -> float values taken from the source"""
     def __init__(self, th):
-        self.te, self.tu, self.tn = th['t_exp'], th['t_unitvec'], th['t_unit']
+        self.te, self.tn = th['t_exp'], th['t_unit']
 
     # ---- scalar part of the argument of exp
     def s_zero(self, rng):
@@ -438,9 +440,9 @@ class Dom:
         return cl
 
     def log_exp_ok(self, q):
-        """the composition log(exp q) stays a factor 2 away from the unitvec threshold"""
+        """the vector part of exp q does not vanish (log has no threshold any more)"""
         n = float(np.linalg.norm(q[1:]))
-        return n > 0 and away(math.exp(q[0]) * abs(math.sin(n)), self.tu) and away(abs(math.sin(n)), self.tu)
+        return n > 0 and math.exp(q[0]) * abs(math.sin(n)) > 0
 
     def log_exp_classes(self):
         def mk(f):
@@ -467,10 +469,9 @@ class Dom:
         return u / np.linalg.norm(u)
 
     def log_ok(self, p, lo=0.0):
-        """p is a factor 2 away from the unitvec threshold (vector part) and from the band of exp (|ln|p||);
-        lo: smallest |v|/|p| admitted when the scalar part is positive (below ~2e-8 acos(s/|p|) rounds to 0)"""
+        """non-zero vector part, |ln|p|| a factor 2 away from the band of exp"""
         nv, N = float(np.linalg.norm(p[1:])), float(np.linalg.norm(p))
-        return nv > 2 * self.tu and nv > 0 and N > 0 and away(math.log(N), self.te) and (p[0] < 0 or nv >= lo * N)
+        return nv > 0 and N > 0 and away(math.log(N), self.te)
 
     def _retry(self, f, lo):
         def g(rng):
@@ -492,45 +493,36 @@ class Dom:
         return self.unit_dir(rng, lo) * lu(rng, 1e-3, 1e3)
 
     def p_small_vec(self, rng, lo):
-        """vector part between 2.5 t_unitvec and 1e-6 in absolute terms, scalar part O(1) (any sign)"""
-        return np.r_[rng.uniform(0.2, 3) * rng.choice([-1.0, 1.0]), rand_unit(rng) * lu(rng, max(2.5 * self.tu, 1e-300), 1e-6)]
+        """vector part 1e-13..1e-6 in absolute terms, scalar part O(1) (any sign)"""
+        return np.r_[rng.uniform(0.2, 3) * rng.choice([-1.0, 1.0]), rand_unit(rng) * lu(rng, 1e-13, 1e-6)]
 
-    def p_small_vec_neg(self, rng, lo):
-        return np.r_[-rng.uniform(0.2, 3), rand_unit(rng) * lu(rng, max(2.5 * self.tu, 1e-300), 1e-6)]
+    def p_tiny_vec(self, rng, lo):
+        """non-zero vector part of norm 1e-30..1e-14: below every threshold the code ever had (100 eps, 10 eps);
+        before b361ecf log raised TypeError here"""
+        return np.r_[rng.uniform(0.2, 3) * rng.choice([-1.0, 1.0]), rand_unit(rng) * lu(rng, 1e-30, 1e-14)]
 
-    def p_acos_zero(self, rng):
-        """positive scalar part, |v| <= 1e-9 |s| (above the unitvec threshold): acos(s/|p|) = acos(1.0) = 0 exactly,
-        log returns a zero vector part and exp of that divides 0 by 0 (finding)"""
-        for _ in range(500):
-            sc = rng.uniform(0.2, 3)
-            p = np.r_[sc, rand_unit(rng) * sc * lu(rng, 1e-13, 1e-9)]
-            if np.linalg.norm(p[1:]) > 2.5 * self.tu and away(math.log(np.linalg.norm(p)), self.te):
-                break
-        return [p]
+    def p_tiny_ratio(self, rng, lo):
+        """positive scalar part, |v| <= 1e-9 |s|: before b361ecf acos(s/|p|) = acos(1.0) = 0 and exp(log p) was NaN"""
+        sc = rng.uniform(0.2, 3)
+        return np.r_[sc, rand_unit(rng) * sc * lu(rng, 1e-13, 1e-9)]
 
-    def p_below(self, rng):
-        """non-zero vector part at most half the unitvec threshold: log raises TypeError (finding)"""
-        return [np.r_[rng.uniform(0.2, 3) * rng.choice([-1.0, 1.0]), rand_unit(rng) * lu(rng, 1e-3, 0.5) * self.tu]]
+    def p_real_pos(self, rng):
+        return [np.r_[rng.uniform(0.2, 3), 0.0, 0.0, 0.0]]
 
-    def p_real(self, rng):
-        return [np.r_[rng.uniform(0.2, 3) * rng.choice([-1.0, 1.0]), 0.0, 0.0, 0.0]]
+    def p_real_neg(self, rng):
+        return [np.r_[-rng.uniform(0.2, 3), 0.0, 0.0, 0.0]]
 
     def p_zero(self, rng):
         return [np.zeros(4)]
 
     def log_classes(self, composite=False, errors=True):
-        """composite: classes for exp(log p): |v|/|p| >= 1e-5 (or s < 0) so that the angle is not at the rounding
-        level of acos, plus the class on which it IS exactly 0"""
-        lo = 1e-5 if composite else 0.0
-        ud = 1e-5 if composite else 1e-9
+        """errors: also the real quaternions (positive: a value, negative / zero: ValueError)"""
+        ud = 1e-9
         cl = [('near-unit', self._retry(self.p_near_unit, ud)), ('band-edge', self._retry(self.p_band_edge, ud)),
-              ('generic', self._retry(self.p_generic, ud))]
-        if composite:
-            cl += [('small-vector-neg', self._retry(self.p_small_vec_neg, lo)), ('acos-zero', self.p_acos_zero)]
-        else:
-            cl += [('small-vector', self._retry(self.p_small_vec, lo))]
-        if errors and self.tu > 0:
-            cl += [('below-unitvec', self.p_below), ('real', self.p_real), ('zero', self.p_zero)]
+              ('generic', self._retry(self.p_generic, ud)), ('small-vector', self._retry(self.p_small_vec, 0.0)),
+              ('tiny-vector', self._retry(self.p_tiny_vec, 0.0)), ('tiny-ratio', self._retry(self.p_tiny_ratio, 0.0))]
+        if errors:
+            cl += [('real-positive', self.p_real_pos), ('real-negative', self.p_real_neg), ('zero', self.p_zero)]
         return cl
 
 
@@ -562,8 +554,8 @@ def add_models(ctx, g, th):
     M = 'Model.C12_ExpLog'
     C = lambda nm, classes: Cycle(ctx, nm, classes)
     Q = lambda q: Quaternion(q)
-    v3 = [('tiny', lambda rng: [rand_unit(rng) * lu(rng, 1e-18, 0.5 * D.tu) if D.tu > 0 else np.zeros(3)]),
-          ('small', lambda rng: [rand_unit(rng) * lu(rng, 2 * D.tu + 1e-300, 1e-3)]),
+    v3 = [('tiny', lambda rng: [rand_unit(rng) * lu(rng, 1e-30, 1e-14)]),
+          ('small', lambda rng: [rand_unit(rng) * lu(rng, 1e-14, 1e-3)]),
           ('generic', lambda rng: [rng.normal(size=3) * lu(rng, 1e-3, 1e3)]),
           ('zero', lambda rng: [np.zeros(3)])]
     q4 = [('generic', lambda rng: [rng.normal(size=4) * lu(rng, 1e-6, 1e6)]),
@@ -572,8 +564,6 @@ def add_models(ctx, g, th):
           ('zero', lambda rng: [np.zeros(4)])]
     g.model('m_vnorm3', [('v', 'V3')], 'S', coq='m_vnorm3', module=M, num_fn=lambda v: base.norm(v), sampler=C('vnorm3', v3))
     g.model('m_qnorm4', [('q', 'V4')], 'S', coq='m_qnorm4', module=M, num_fn=lambda q: Q(q).norm(), sampler=C('qnorm4', q4))
-    g.model('m_unitvec', [('v', 'V3')], 'O:V3', coq='m_unitvec', module=M, num_fn=lambda v: base.unitvec(v),
-            sampler=C('unitvec', v3))
     # the normalising constructor UnitQuaternion(s=, v=) (= base.unit with the default tolerance)
     g.model('m_qunit', [('q', 'V4')], 'O:V4', coq='m_qunit', module=M,
             num_fn=lambda q: UnitQuaternion(s=float(q[0]), v=q[1:]).vec, sampler=C('qunit', q4))
@@ -587,9 +577,8 @@ def add_models(ctx, g, th):
     g.model('m_qexp_unit', [('q', 'V4')], 'B', coq='m_qexp_unit', module=M,
             num_fn=lambda q: float(isinstance(Q(q).exp(), UnitQuaternion) and not np.any(np.isnan(Q(q).exp().vec))),
             sampler=C('qexp_unit', ex))
-    # log: acos(s/|q|) is ill-conditioned at s/|q| -> +-1: one ulp of difference in |q| (np.linalg.norm sums in BLAS
-    # order, the model left to right) moves the angle by up to sqrt(2 ulp) = 2.1e-8
-    lt = 1e-7
+    # log takes the angle by atan2(|v|, s) (well conditioned; |v| is computed by the same loop in model and code)
+    lt = 1e-10
     lg = D.log_classes()
     g.model('m_qlog', [('q', 'V4')], 'O:V4', coq='m_qlog', module=M, num_fn=lambda q: Q(q).log().vec, sampler=C('qlog', lg), tol=lt)
     g.model('m_qlog_code', [('q', 'V4')], 'S', coq='m_qlog_code', module=M, num_fn=err_code(lambda q: Q(q).log().vec),
@@ -779,40 +768,43 @@ def oracle_explog(ctx, th):
                 L = guarded('log-exp', q, lambda: E.log().exp())
                 if L is not None:
                     chk('exp-log-exp', L.vec, ref, float(np.linalg.norm(ref)), q)
-        for lab, f in D.log_classes(composite=False, errors=False):
+        for lab, f in D.log_classes(errors=False):
             p = f(rng)[0]
             ctx.count('hit:oracle-log:' + lab)
-            L = guarded('log', p, lambda: Quaternion(p).log())
+            # the classes repaired by b361ecf / dbb1296 report under their own keys (no stale known entry can match)
+            tag = ':tiny-vector-part' if lab in ('tiny-vector', 'tiny-ratio') else ''
+            L = guarded('log' + tag, p, lambda: Quaternion(p).log())
             if L is None:
                 continue
             ref = qlog_ref(p)
-            chk('log-closed-form', L.vec, ref, max(1.0, float(np.linalg.norm(ref))), p)
-            # below |v|/|p| ~ 2e-8 (positive scalar part) the angle acos(s/|p|) is at the rounding level: separate class
-            if p[0] < 0 or np.linalg.norm(p[1:]) >= 1e-7 * np.linalg.norm(p):
-                R = guarded('exp-log', p, lambda: L.exp())
-                if R is not None:
-                    chk('exp-log-directed', R.vec, p, max(1.0, float(np.linalg.norm(p))), p)
-        # ---- vector parts that are non-zero but negligible: the property still demands the round trip
-        if D.tu > 0:
-            p = D.p_below(rng)[0]
-            ctx.count('hit:oracle-log:below-unitvec')
-            L = guarded('log:vector-part-below-unitvec-threshold', p, lambda: Quaternion(p).log())
+            chk('log-closed-form' + tag, L.vec, ref, max(1.0, float(np.linalg.norm(ref))), p)
+            R = guarded('exp-log' + tag, p, lambda: L.exp())
+            if R is not None:
+                chk('exp-log-directed' + tag, R.vec, p, max(1.0, float(np.linalg.norm(p))), p)
+        # log(exp q) when the vector part of exp q is tiny (e^s sin|v| = 1e-30..1e-16): formerly TypeError
+        sc = rng.uniform(-3, 3)
+        q = np.r_[sc, rand_unit(rng) * lu(rng, 1e-30, 1e-16) * math.exp(-sc)]
+        ctx.count('hit:oracle-exp:tiny-vector')
+        L = guarded('log-exp:tiny-vector-part', q, lambda: Quaternion(q).exp().log())
+        if L is not None:
+            chk('log-exp:tiny-vector-part', L.vec, q, max(1.0, float(np.linalg.norm(q))), q)
+        # real quaternions: exp is (e^s, 0, 0, 0) (formerly NaN), log of a positive one (ln s, 0, 0, 0) (formerly TypeError)
+        sr = D.s_o1(rng) if rnd % 2 else D.s_tiny(rng)
+        qr = np.r_[sr, 0.0, 0.0, 0.0]
+        ctx.count('hit:oracle-exp:real')
+        E = guarded('exp:real-quaternion', qr, lambda: Quaternion(qr).exp())
+        if E is not None:
+            chk('exp:real-quaternion', E.vec, np.r_[math.exp(sr), 0, 0, 0], math.exp(sr), qr)
+            L = guarded('log-exp:real-quaternion', qr, lambda: E.log())
             if L is not None:
-                R = guarded('exp-log:small-vector-part', p, lambda: L.exp())
-                if R is not None:
-                    chk('exp-log:small-vector-part', R.vec, p, max(1.0, float(np.linalg.norm(p))), p)
-            # log(exp q) with e^s sin|v| below the threshold
-            sc = rng.uniform(-3, 3)
-            q = np.r_[sc, rand_unit(rng) * lu(rng, 1e-3, 0.4) * D.tu * math.exp(-sc)]
-            ctx.count('hit:oracle-exp:below-unitvec')
-            L = guarded('log:vector-part-below-unitvec-threshold', q, lambda: Quaternion(q).exp().log())
-            if L is not None:
-                chk('log-exp:small-vector-part', L.vec, q, max(1.0, float(np.linalg.norm(q))), q)
-        p = D.p_acos_zero(rng)[0]
-        ctx.count('hit:oracle-log:acos-zero')
-        R = guarded('exp-log:small-vector-part', p, lambda: Quaternion(p).log().exp())
-        if R is not None:
-            chk('exp-log:small-vector-part', R.vec, p, max(1.0, float(np.linalg.norm(p))), p)
+                chk('log-exp:real-quaternion', L.vec, qr, max(1.0, abs(sr)), qr)
+        pr = D.p_real_pos(rng)[0]
+        L = guarded('log:real-quaternion', pr, lambda: Quaternion(pr).log())
+        if L is not None:
+            chk('log:real-quaternion', L.vec, np.r_[math.log(pr[0]), 0, 0, 0], max(1.0, abs(math.log(pr[0]))), pr)
+            R = guarded('exp-log:real-quaternion', pr, lambda: L.exp())
+            if R is not None:
+                chk('exp-log:real-quaternion', R.vec, pr, max(1.0, pr[0]), pr)
     ctx.sample({'kind': 'oracle', 'identity': 'log-exp-directed', 'q': q.tolist()})
 
 
@@ -923,7 +915,7 @@ def oracle_multi(ctx):
                       ('pow', '__pow__', lambda Z: Z ** n, powref, 1e-9),
                       ('smul', '__mul__', lambda Z: Z * kf, lambda v: kf * v, 1e-9),
                       ('rsmul', '__rmul__', lambda Z: kf * Z, lambda v: kf * v, 1e-9),
-                      ('matrix', 'matrix', lambda Z: Z.matrix, mats, 1e-9),
+                      ('matrix-per-value', 'matrix', lambda Z: Z.matrix, mats, 1e-9),
                       ('exp', 'exp', lambda Z: Z.exp(), qexp_ref, 1e-6),
                       ('log', 'log', lambda Z: Z.log(), qlog_ref, 1e-6)]
                 for op, attr, f, ref, tol in un:
@@ -940,7 +932,7 @@ def run(ctx):
                 "each identity on the implementation at magnitudes 1e-6..1e6 and of exp/log on the directed domain; "
                 "a case is non-trivial/distinct by its (identity, input) signature")
     ctx.trusted_extra = ["T-const AST pass of props/C12.py (thresholds, branch skeleton and call set of Quaternion.exp/log, "
-                         "vectors.norm/unitvec, quaternions.qnorm/unit, the (s=, v=) constructors)",
+                         "vectors.norm, quaternions.qnorm/unit, the (s=, v=) constructors)",
                          "math.atan2-based closed form of the quaternion logarithm and e^s(cos|v|, v/|v| sin|v|) as the oracle's references"]
     with ctx.timed('regenerate'):
         try:
